@@ -421,6 +421,11 @@ fn pipe_out(cfg: &Cfg) {
     if pat == 0 {
         ctl.end();
     }
+    if cfg.opt("d2", 0) > 0 && cfg.opt("d2at", 1) == 0 {
+        // `d2at`=0: the depth is changed before the first read, once the producer has taken what it can and is throttled
+        rt::quiesce();
+        out.set_backpressure_depth(cfg.opt("d2", 0) as usize);
+    }
     let prev = rt::note("in:pipe-consumer");
     let mut got = vec![];
     loop {
@@ -433,7 +438,7 @@ fn pipe_out(cfg: &Cfg) {
         }
         // `d2`: the consumer changes the back-pressure depth after its first read, while items may be buffered and the
         // producer may be throttled
-        if got.len() == 1 && cfg.opt("d2", 0) > 0 {
+        if got.len() == 1 && cfg.opt("d2", 0) > 0 && cfg.opt("d2at", 1) == 1 {
             out.set_backpressure_depth(cfg.opt("d2", 0) as usize);
         }
     }
